@@ -32,16 +32,15 @@ def _horizon(cfg):
     return 1.05 if cfg.get('short') and cfg['timeout'] == 0.2 else HORIZON
 
 
-class _LogLock(vsched.VLock):
-    def __init__(self, ex):
-        super().__init__()
-        self.ex = ex
-
-    def acquire(self, blocking=True, timeout=-1):
-        r = super().acquire(blocking, timeout)
-        if r:
-            self.ex.log('lockacq', cfh._thread_name())
-        return r
+def _log_lock(base, ex):
+    """A lock of the same kind as the one it replaces (plain or re-entrant) that logs every successful acquire."""
+    class _LogLock(base):
+        def acquire(self, blocking=True, timeout=-1):
+            r = super().acquire(blocking, timeout)
+            if r:
+                ex.log('lockacq', cfh._thread_name())
+            return r
+    return _LogLock()
 
 
 def exec_c10(cfg, devs):
@@ -63,7 +62,13 @@ def exec_c10(cfg, devs):
     def main():
         s = ex.s
         cf = Crazyflie()
-        cf._send_lock = _LogLock(ex)
+        # observe entries into the send section: the lock that guards it is replaced by a logging one (found by type, so
+        # that a rename does not matter; if it cannot be identified the clauses that need it are silent)
+        ln = cfh.find_attr(cf, ('_send_lock',), lambda v: isinstance(v, (vsched.VLock, vsched.VRLock)))
+        if ln is not None:
+            setattr(cf, ln, _log_lock(type(getattr(cf, ln)), ex))
+        else:
+            p.cap('send-section lock of Crazyflie not identified: overlap rules not applied')
         cf.packet_received.add_callback(lambda pk: ex.log('processed', (pk.header,) + tuple(pk.data)))
         info['cf'] = cf
 
@@ -122,7 +127,6 @@ def exec_c10(cfg, devs):
             if isinstance(th, vsched.VTimer) and t.state != vsched.DONE and not th.finished._flag:
                 live.append(t.name)
         info['live_timers'] = live
-        info['patterns'] = sorted(cf._answer_patterns)
         cf.close_link()
 
     ex.run(main)
